@@ -628,6 +628,11 @@ class _ScopeTok:
     def __init__(self, table, parent=None):
         self.symbol_attrs, self.parent = table, parent
 
+    @property
+    def parents(self):
+        # Scope.parents: all enclosing scopes, the OUTERMOST first (parent.parents + (parent,))
+        return () if self.parent is None else self.parent.parents + (self.parent,)
+
 
 class _DataType:
     pass
